@@ -81,14 +81,23 @@ class MemPerDocWriter(base.PerDocWriterWithColumns):
         self._doccount = 0
 
     def _has_column(self, fieldname):
-        return fieldname in self._colwriters
+        return fieldname in self._segment._colvalues
 
     def _create_column(self, fieldname, column):
-        colfile = self._storage.create_file("%s.c" % fieldname)
-        self._colwriters[fieldname] = (colfile, column.writer(colfile))
+        self._segment._colvalues[fieldname] = {}
 
     def _get_column(self, fieldname):
-        return self._colwriters[fieldname][1]
+        raise NotImplementedError
+
+    def add_column_value(self, fieldname, column, value):
+        # Each writer made by MemoryCodec.writer() only sees some of the
+        # segment's documents, so the values are kept on the segment and the
+        # column is put together when it is read
+        with self._segment._lock:
+            colvalues = self._segment._colvalues
+            if fieldname not in colvalues:
+                colvalues[fieldname] = {}
+            colvalues[fieldname][self._docnum] = value
 
     def start_doc(self, docnum):
         self._doccount += 1
@@ -118,11 +127,6 @@ class MemPerDocWriter(base.PerDocWriterWithColumns):
             self._segment._vectors[docnum] = self._vectors
 
     def close(self):
-        colwriters = self._colwriters
-        for fieldname in colwriters:
-            colfile, colwriter = colwriters[fieldname]
-            colwriter.finish(self._doccount)
-            colfile.close()
         self.is_closed = True
 
 
@@ -150,11 +154,21 @@ class MemPerDocReader(base.PerDocumentReader):
         return True
 
     def has_column(self, fieldname):
-        filename = "%s.c" % fieldname
-        return self._storage.file_exists(filename)
+        return fieldname in self._segment._colvalues
 
     def column_reader(self, fieldname, column):
         filename = "%s.c" % fieldname
+        with self._segment._lock:
+            values = sorted(self._segment._colvalues[fieldname].items())
+            doccount = self._segment.doc_count_all()
+        colfile = self._storage.create_file(filename)
+        colwriter = column.writer(colfile)
+        for docnum, value in values:
+            if docnum < doccount:
+                colwriter.add(docnum, value)
+        colwriter.finish(doccount)
+        colfile.close()
+
         colfile = self._storage.open_file(filename)
         length = self._storage.file_length(filename)
         return column.reader(colfile, 0, length, self._segment.doc_count_all())
@@ -299,6 +313,7 @@ class MemSegment(base.Segment):
         self._vectors = {}
         self._invindex = {}
         self._terminfos = {}
+        self._colvalues = {}
         self._lock = Lock()
 
     def codec(self):
